@@ -192,20 +192,42 @@ func checkPasswordDispatch(c *km.Ctx, s *km.Sem) {
 			norm = true
 		}
 		r.Add("R-C07-4", km.FuncName(cs.Caller), "normalised name to the backend", posOf(c, cl), "checkUserPassword(reprocessUsername(submitted name), …)", km.ValStr(u), norm)
-		// the session is minted / the credential is issued for the same value
+		// the session is minted / the credential is issued for the same value - in this function, or in a caller
+		// that receives the verified name as this function's result
 		same := false
-		km.Instrs(cs.Caller, func(in ssa.Instruction) {
-			if ci, ok := in.(ssa.CallInstruction); ok && km.CalleeFull(ci.Common()) == fnSetCookie {
-				if km.Unwrap(km.CallArgs(ci.Common())[2]) == u {
-					same = true
-				}
+		frames := []*ssa.Function{cs.Caller}
+		for _, up := range c.G.Callers[cs.Caller] {
+			frames = append(frames, up.Caller)
+		}
+		isVerified := func(at ssa.Instruction, v ssa.Value) bool {
+			st := c.F.At(at)
+			if len(st) == 0 {
+				return false
 			}
-			if st, ok := in.(*ssa.Store); ok {
-				if fa, ok := st.Addr.(*ssa.FieldAddr); ok && fieldNameOf(fa) == "Username" && km.NamedTypeOf(fa.X.Type()) == KMD+".authInfo" && km.Unwrap(st.Val) == u {
-					same = true
+			return st.All(func(k km.Conj) bool {
+				stopAt := func(cl *ssa.Call) bool { return ssa.Value(cl) == u || km.CalleeFull(cl.Common()) == RS+"reprocessUsername" }
+				for _, lf := range s.Leaves(k, at.Parent(), nil, v, stopAt, 2) {
+					if lf.Val != u {
+						return false
+					}
 				}
-			}
-		})
+				return true
+			})
+		}
+		for _, fr := range frames {
+			km.Instrs(fr, func(in ssa.Instruction) {
+				if ci, ok := in.(ssa.CallInstruction); ok && km.CalleeFull(ci.Common()) == fnSetCookie {
+					if isVerified(in, km.CallArgs(ci.Common())[2]) {
+						same = true
+					}
+				}
+				if st, ok := in.(*ssa.Store); ok {
+					if fa, ok := st.Addr.(*ssa.FieldAddr); ok && fieldNameOf(fa) == "Username" && km.NamedTypeOf(fa.X.Type()) == KMD+".authInfo" && isVerified(in, st.Val) {
+						same = true
+					}
+				}
+			})
+		}
 		r.Add("R-C07-4", km.FuncName(cs.Caller), "session for the verified name", posOf(c, cl), "the session / credential is created for the very value whose password was checked", sprintf("%v", same), same)
 	}
 	// checkUserPassword returns the backend's verdict
